@@ -8,7 +8,7 @@ CONFIG = {
     "confirm_replay_prefer": r"^tlshist seqn? \S+ \S+ \S+ \S+ \S+ .*\S+,\S+,\S+,\S",   # histories whose configuration changes between attempts
     "level_text": "File faults (SA.Props.C05Fault): C05_unreadable_file_no_config / C05_unreadable_file_no_session - whenever a configured certificate, key or CA FILE cannot be read at the moment "
                   "a TLS configuration is built (missing, a directory, a dangling symlink), no tls.Config is produced and no session is established, for every option set, oracle, kind, host and peer; "
-                  "C05_read_errors_propagate (regenerated SA.Gen.c05FileReadFates / c05FailurePoints: in cert.go every ReadFile reachable from the three getters hands its error to a return - identifiers resolved to "
+                  "C05_read_errors_propagate (regenerated SA.Gen.c05FileReadFates / c05FailurePoints / c05CaPemVerdictChecked: in cert.go every ReadFile reachable from the three getters hands its error to a return - identifiers resolved to "
                   "their declarations, a shadowed err is not the returned one -, no fallible result is thrown away, AppendCertsFromPEM's verdict guards a return), witness C05_witness_swallowed_ca_read_error; "
                   "tied to the code by `cafault` cells (real SocketServer / upstream.Socket, StartTLS and TLS listener, client and server side, CA / certificate / key file x {ok, missing, dir, dangling, empty, garbage}). "
                   "Every server KIND applies the full server configuration (SA.Props.C05Kinds): C05_server_kind_manager_is_server_config (regenerated: the expression every "
